@@ -931,3 +931,34 @@ package state
 //@ ensures[precedence-from-names-on-every-write] err == nil ==> ixn.Precedence == 3*ixnExact(ixn.DestinationNS, ixn.DestinationName) + ixnExact(ixn.SourceNS, ixn.SourceName) + 1
 //@ ensures[names-kept] ixn.SourceNS == old(ixn.SourceNS) && ixn.SourceName == old(ixn.SourceName) && ixn.DestinationNS == old(ixn.DestinationNS) && ixn.DestinationName == old(ixn.DestinationName)
 //@ ensures[create-index] err == nil ==> ixn.CreateIndex == ite(old(T_connect_intentions(ixn.ID)) == nil, idx, old(T_connect_intentions(ixn.ID).CreateIndex))
+
+// ---- C13: config-entry intentions matched for a source or a destination are returned in precedence order
+// (IntentionPrecedenceSorter.Less, whose order properties are lemmas in agent/structs), whatever order the lookups by
+// exact name and by wildcard produced them in. The per-name lookups are ASSUMED (arbitrary lists, no writes).
+//@ file config_entry_intention.go
+
+//@ func readSourceIntentionsFromConfigEntriesForServiceTxn
+//@ trusted
+//@ results out, err
+//@ modifies nothing
+//@ func readSourceSamenessIntentionsFromConfigEntriesForServiceTxn
+//@ trusted
+//@ results out, err
+//@ modifies nothing
+//@ func getServiceIntentionsConfigEntryTxn
+//@ trusted
+//@ results gidx, gentry, gerr
+//@ modifies nothing
+
+//@ func readSourceIntentionsFromConfigEntriesTxn
+//@ props C13
+//@ results ridx, list, rerr
+//@ ensures[precedence-order] rerr == nil ==> forall a int, b int :: 0 <= a && a < b && b < len(list) ==> !structs.IntentionPrecedenceSorter(list).Less(b, a)
+//@ modifies nothing
+
+//@ func readDestinationIntentionsFromConfigEntriesTxn
+//@ props C13
+//@ results ridx, list, rerr
+//@ ensures[precedence-order] rerr == nil ==> forall a int, b int :: 0 <= a && a < b && b < len(list) ==> !structs.IntentionPrecedenceSorter(list).Less(b, a)
+//@ modifies nothing
+
